@@ -7,61 +7,112 @@ NOTES = ("Every check: (1) regenerates any Gen/*.lean from /repo, (2) lake-build
 
 NOT_YET = {}
 
-CHECKS = {
-    "C01": {
-        "text": "Lean theorems about an interleaving transition system of the RPC call life cycle (one object, one peer connection, "
-                "unboundedly many calls/callers, removal / stop of either context / disconnect / serialisation faults at any point): "
-                "at_most_once, own_outcome (every configuration); no_loss_partial (carrier invariant), calls_complete_partial "
-                "(quiescent => every call has its outcome), activity_terminates (measure), object_survives_partial for the repaired "
-                "configuration with the client context not stopped; decide-checked hang witnesses for each loss path of the pinned tree. "
-                "Tie: real contexts under a deterministic scheduler + simulated network; observed outcome vectors must lie in the "
-                "model's terminal set (Lean driver explores the model exhaustively per scenario); fault swept over every yield index.",
-        "note": "Trusted: Lean kernel + 3 axioms; scheduler/simnet harness; model atomicity follows the code's locks and is validated by "
-                "outcome-set inclusion (bounded, per scenario); pickle/asyncio/OS sockets modelled; model config bits are probed on the "
-                "current source. Liveness is proved in the `_partial` form; the full form is false on the pinned tree (5 known findings).",
-        "technique": "Lean 4 proof (inductive invariants + termination measure over an interleaving model) + outcome-set correspondence under a deterministic scheduler",
-    },
-    "C09": {
-        "text": "Lean theorems (induction over all op sequences, all capacities ≥ 1, both policies): len_le_cap, queue_sorted, "
-                "seq_strict_mono_out, accounting (permutation of range next), gap_is_lost/gap_count, policy_old/new, getNext_total. "
-                "Model tied to QMI_SignalReceiver by op-sequence differential runs (20k scenarios quick) plus a direct oracle.",
-        "note": "Trusted: Lean kernel + 3 standard axioms; correspondence harness and its generator; deque(maxlen) and "
-                "threading.Condition are modelled/exercised, not verified. Blocking get_next_signal is exercised with real threads only.",
-        "technique": "Lean 4 proof (inductive invariant over op sequences) + differential correspondence with the real class",
-    },
-    "C19": {
-        "text": "Lean theorems over an abstract open()/close() program language (fuel-based semantics, state = flag, open links, device log; "
-                "fault plan = the k-th potentially-raising step raises kind κ): fault_beyond_end (∀ plan reduces to a finite table), "
-                "all_plans_of_table, consistent_of_wf (decidable syntactic discipline ⇒ consistent under every plan), retry_possible, "
-                "close_after_open, closed_no_io, double_open_close_refused. Per driver class (64 programs regenerated from the AST of "
-                "open/close on every run): ok_X : ∀ plan, Consistent (51 classes) or the kernel-checked negation witness bad_X plus exact_X "
-                "(the complete list of failing plans; 13 programs = 12 known findings), hist_X, recover_X, shape_X, all by decide +kernel. "
-                "Tie: every class is instantiated around recording fault-injecting transports; every transport call of the real open() × "
-                "{timeout, instrument error, OS error, junk reply} is swept, executed statements (line trace), exception, is_open() and link "
-                "flags are diffed against the model run under the corresponding plan; plus seeded open/close histories (with faulty opens) "
-                "and every RPC method on the closed instrument.",
-        "note": "Trusted: Lean kernel (axioms used: propext, Quot.sound); translator harness/tr_openprogs.py (conservative: whitelist of pure "
-                "statements, refuses source it does not understand) and the fake transport; `io` statements are one opaque potentially-raising "
-                "step (assumed not to touch flag/links — validated by the per-run correspondence); concrete transports, faults inside close(), "
-                "multiple faults and BaseException are out of scope; consistent_of_wf/close_after_open are stated for single-link drivers.",
-        "technique": "Lean 4 proof (generic lemmas + per-class decide +kernel on programs translated from source) + line-trace fault-sweep correspondence with the real drivers",
-    },
-    "C03": {
-        "text": "Lean theorems over all reachable states of an interleaving model of the request path as a pipeline of FIFO stages "
-                "(unboundedly many caller threads, contexts, objects, requests; actions start/issue/enqLocal/enqRemote/loopRun/"
-                "wireDeliver/workerPop/workerFinish): fifo_pipeline (for every caller c and object o the stages executed++cur++fifo++"
-                "wire++ready++hand restricted to (c,o) equal the issue sequence), per_caller_order (+_started,_by_caller: executions "
-                "are a prefix of the issue order, incl. non-blocking calls never waited for), no_loss_no_dup, executed_at_most_once, "
-                "one_at_a_time (pops-finishes in {0,1} after every prefix of every run), exec_only_by_worker / single_executing_thread / "
-                "executed_only_by_finish. Tie: real contexts, proxies, event loops and worker threads under the deterministic scheduler + "
-                "simulated network with a probe object (line-level yield points); taps on the proxy call entry, loop hand-off, "
-                "_PeerTcpConnection.send_message, handle_message, push_rpc_request, the _fifo deque and the worker loop give a linearised "
-                "event log that the Lean driver replays (each event enabled, same queue contents, invariant kept); independent oracle: no "
-                "overlap, per-caller sequence 0,1,2,…, no duplicate/phantom execution, one executing thread per object.",
-        "note": "Trusted: Lean kernel + 3 axioms; detsched/simnet harness and the taps (incl. the logging subclass installed for "
-                "_RpcThread._fifo). Single-workerness is structural in the model (one `cur` slot, `start` guarded) and is checked on the code "
-                "only by refinement + overlap/second-thread oracle on explored schedules (300 quick / 7000 thorough). Assumes each caller "
-                "thread issues its calls through one context; replies, removal, disconnects, lock requests are out of this model (C01/C04).",
-        "technique": "Lean 4 proof (inductive invariant over an interleaving pipeline model) + trace refinement under a deterministic scheduler",
-    },
-}
+CHECKS = {'C01': {'text': 'Lean theorems about an interleaving transition system of the RPC call life cycle (one object, one peer connection, unboundedly '
+                 'many calls/callers, removal / stop of either context / disconnect / serialisation faults at any point): at_most_once, own_outcome '
+                 '(every configuration); no_loss_partial (carrier invariant), calls_complete_partial (quiescent => every call has its outcome), '
+                 'activity_terminates (measure), object_survives_partial for the repaired configuration with the client context not stopped; '
+                 'decide-checked hang witnesses for each loss path of the pinned tree. Tie: real contexts under a deterministic scheduler + '
+                 "simulated network; observed outcome vectors must lie in the model's terminal set (Lean driver explores the model exhaustively per "
+                 'scenario); fault swept over every yield index.',
+         'note': "Trusted: Lean kernel + 3 axioms; scheduler/simnet harness; model atomicity follows the code's locks and is validated by "
+                 'outcome-set inclusion (bounded, per scenario); pickle/asyncio/OS sockets modelled; model config bits are probed on the current '
+                 'source. Liveness is proved in the `_partial` form; the full form is false on the pinned tree (5 known findings).',
+         'technique': 'Lean 4 proof (inductive invariants + termination measure over an interleaving model) + outcome-set correspondence under a '
+                      'deterministic scheduler'},
+ 'C03': {'text': 'Lean theorems over all reachable states of an interleaving model of the request path as a pipeline of FIFO stages (unboundedly '
+                 'many caller threads, contexts, objects, requests; actions '
+                 'start/issue/enqLocal/enqRemote/loopRun/wireDeliver/workerPop/workerFinish): fifo_pipeline (for every caller c and object o the '
+                 'stages executed++cur++fifo++wire++ready++hand restricted to (c,o) equal the issue sequence), per_caller_order '
+                 '(+_started,_by_caller: executions are a prefix of the issue order, incl. non-blocking calls never waited for), no_loss_no_dup, '
+                 'executed_at_most_once, one_at_a_time (pops-finishes in {0,1} after every prefix of every run), exec_only_by_worker / '
+                 'single_executing_thread / executed_only_by_finish. Tie: real contexts, proxies, event loops and worker threads under the '
+                 'deterministic scheduler + simulated network with a probe object (line-level yield points); taps on the proxy call entry, loop '
+                 'hand-off, _PeerTcpConnection.send_message, handle_message, push_rpc_request, the _fifo deque and the worker loop give a linearised '
+                 'event log that the Lean driver replays (each event enabled, same queue contents, invariant kept); independent oracle: no overlap, '
+                 'per-caller sequence 0,1,2,…, no duplicate/phantom execution, one executing thread per object.',
+         'note': 'Trusted: Lean kernel + 3 axioms; detsched/simnet harness and the taps (incl. the logging subclass installed for _RpcThread._fifo). '
+                 'Single-workerness is structural in the model (one `cur` slot, `start` guarded) and is checked on the code only by refinement + '
+                 'overlap/second-thread oracle on explored schedules (300 quick / 7000 thorough). Assumes each caller thread issues its calls '
+                 'through one context; replies, removal, disconnects, lock requests are out of this model (C01/C04).',
+         'technique': 'Lean 4 proof (inductive invariant over an interleaving pipeline model) + trace refinement under a deterministic scheduler'},
+ 'C05': {'text': 'Lean theorems over every class table (MRO of member tables name↦kind + instance dict) and every name (all strings via an injective '
+                 'encoding, proved): dispatch_sound (WellFormed C → ∀n, invokable↔advertised ∧ (¬invokable → no effects ∧ unknown-RPC reply)), '
+                 'absent_name_rejected, invokable_only_declared, protected_names_never_advertised/_rejected, wellFormed_iff (WellFormed ⇔ property '
+                 'at every name), dispatch_sound_partial. Gen/RpcClasses*.lean regenerated on every run from the live classes (94 QMI_RpcObject '
+                 'classes, vars() along the MRO, @rpc_method declarations from the class-body AST, instance dict, probed protected list): 83 '
+                 'wf_<Class> by kernel evaluation, 11 wf_partial_<Class> + 23 computed negation witnesses (property getters). Tie: every class '
+                 'instance behind the real RpcObjectManager/_RpcThread, hand-built method requests for dir(obj) ∪ dunders ∪ near-misses ∪ random '
+                 'strings (34k quick / 140k thorough) with a sys.setprofile tap, diffed against the Lean driver; ~1200 (quick) generated hierarchies '
+                 'through the real metaclass/descriptor/dispatch.',
+         'note': 'Trusted: Lean kernel + 3 axioms; translator (member classification, AST reading of decorators, fake construction; 12 classes built '
+                 'via __new__); CPython attribute lookup/getmembers mirrored and validated differentially; getter results opaque; post-construction '
+                 'instance attributes, non-str names and the lock-token test are outside. 18 known findings (property getters run on lookup: _lib, '
+                 '_model, _ttreadmax, _max_dev_num, _ps_attr, controller_address).',
+         'technique': 'Lean 4 proof (generic theorem + generated per-class obligations by decide +kernel) + differential correspondence of every '
+                      'shipped and generated class through the real dispatch path'},
+ 'C09': {'text': 'Lean theorems (induction over all op sequences, all capacities ≥ 1, both policies): len_le_cap, queue_sorted, seq_strict_mono_out, '
+                 'accounting (permutation of range next), gap_is_lost/gap_count, policy_old/new, getNext_total. Model tied to QMI_SignalReceiver by '
+                 'op-sequence differential runs (20k scenarios quick) plus a direct oracle.',
+         'note': 'Trusted: Lean kernel + 3 standard axioms; correspondence harness and its generator; deque(maxlen) and threading.Condition are '
+                 'modelled/exercised, not verified. Blocking get_next_signal is exercised with real threads only.',
+         'technique': 'Lean 4 proof (inductive invariant over op sequences) + differential correspondence with the real class'},
+ 'C16': {'text': 'Lean theorems over all lines/texts/trees/type descriptors (mutual structural recursion, no bounds): strip_exact, '
+                 'strip_comments_exact, load_ignores_comments, duplicate_key_rejected/load_ok_iff, strip_render_id + load_dump_roundtrip (json as '
+                 'parameter), admits_iff (parser = independent inductive spec Admits), admits_functional, roundtrip (parseValue τ (toDict v) = ok '
+                 'v), error_names_item, offending_is_rejected/accepted_iff_no_offender, ctor_revalidation_noop, shipped_wf/shipped_roundtrip for the '
+                 'structs regenerated from config_defs.py. only_config_error is FALSE on the pinned tree: only_config_error_partial + '
+                 'escaping_exceptions isolate the two exact classes (non-sized value in a fixed Tuple -> TypeError; int beyond float range -> '
+                 'OverflowError), negation witnesses proved and replayed (KNOWN-FINDING x5). Model tied to the code by ~30k quick / ~900k thorough '
+                 'differential cases on real @configstruct classes generated from random descriptors, plus a direct statement-level oracle.',
+         'note': 'Trusted: Lean kernel + 3 standard axioms; translator (dataclasses.fields -> Gen/CfgDefs.lean) and harness; json.loads/dumps as '
+                 'parameters (round trip assumed, dumps(indent=4) layout compared differentially); regex of _strip_comments re-implemented as a '
+                 'scanner (differential only); floats opaque (repr, float(int) resolved by Python); Python repr of dict keys in paths; recursion '
+                 'limit, non-string keys, init=False fields, bare list/dict types out of scope.',
+         'technique': 'Lean 4 proof (parser sound+complete against an inductive admission relation, round-trip and error-spec theorems, generated '
+                      'per-struct obligations by decide) + differential correspondence + independent property oracle'},
+ 'C17': {'text': 'Lean theorems (30): text attributes — attr_roundtrip is false on the pinned tree, kept as comment with attr_roundtrip_partial (all '
+                 'strings below U+10000 or printable, all ints/bools, floats in float.__repr__ form) + negation witnesses (numpy scalar repr, '
+                 'non-printable astral chars); text layout — reshape_roundtrip, scale_recovered, index_column_is_coordinate, layout_roundtrip for '
+                 'all shapes; HDF5 mapping — hdf5_roundtrip, reserved names rejected, empty label ↔ absent attribute; store — no_silent_overwrite '
+                 'over all histories, make_folder_fresh, lex_eq_numeric, find_latest_is_max; recorder — recorder_invariant (file ++ local ++ shared '
+                 '= recorded) over all interleavings, all_blocks_after_close, writer_finishes. Tie: generated datasets through 7 write/read/convert '
+                 'paths (hdf5, text, hdf5→text, text→hdf5, hdf5→text→hdf5 …) in a temp dir, store histories on a real temp dir, recorder with real '
+                 'h5py and the writer thread line-stepped (sys.settrace) at every position; diff with the Lean driver + direct oracle.',
+         'note': "Trusted: Lean kernel + 3 axioms; h5py/HDF5, numpy savetxt/loadtxt/reshape, the file system (open 'x'/mkdir atomic), CPython "
+                 'repr/float/int and str.isprintable (abstract parameter), strftime; datastore/dataset regexes re-implemented and diffed; recorder '
+                 'atomicity taken from the lock in the code. 9 known-finding signatures (numpy-scalar repr after HDF5→text, astral \\\\U escape, '
+                 'ints beyond 2^53 through %.18e, line break in attribute name, `$`-before-newline in datastore regexes).',
+         'technique': 'Lean 4 proof (round-trip laws, history invariants, interleaving invariant of the recorder) + differential correspondence on '
+                      'real files + line-stepped trace refinement of the recorder'},
+ 'C18': {'text': 'Lean theorems for every packet layout passing WellFormed (the live ctypes layout, MAGIC, enum, lookup table and recvfrom sizes are '
+                 'regenerated into Gen/DiscoveryLayouts.lean on every run; gen_layout_wf by decide): glob_sound_complete (state-set matcher = '
+                 'inductive shell-pattern semantics, all patterns/names; bracket handling reproduces CPython 3.12 fnmatch.translate incl. unclosed '
+                 "'[', '[]..]', empty ranges), unpack_total/unpack_complete/unpack_valueError_iff, respond_iff_partial (answers iff both filters "
+                 'match, for names that fit the 64-byte fields; the unrestricted statement is proved false from a replayed witness), '
+                 'echo_fields/echo_values (request id and timestamp bit-exact, pid, port, names up to exactly the field size), junk_ignored + '
+                 'junk_then_answers, client_filters/client_never_self, discovery_end_to_end (uses a proved UTF-8 decode∘encode = id). Tied to the '
+                 'code by differential runs of the real _UdpResponder (reader callback on a fake datagram socket, directly and under a real asyncio '
+                 'loop) and of discover_peer_contexts on a fake socket/selector/clock, a three-way glob diff (Lean / fnmatch.fnmatchcase / '
+                 'responder), exhaustive bracket bodies, every truncation length, tag values, bit-level id/timestamp sweeps; direct oracle on every '
+                 'trace.',
+         'note': 'Trusted: Lean kernel + 3 standard axioms; translator and harness; asyncio containment of exceptions leaving _handle_read '
+                 '(ValueError of the enum lookup, UnicodeDecodeError of a non-UTF-8 filter) is assumed in the model and exercised under a real event '
+                 'loop; ctypes, fnmatch/re and UTF-8 are re-implemented and diffed, not verified; UDP/selectors/the 0.1 s window are faked. Known '
+                 'findings: an over-64-byte or NUL-containing workgroup name (unvalidated config) breaks answering/echo.',
+         'technique': 'Lean 4 proofs (derivative-based matcher vs inductive spec, packet round-trips, invariance under junk, end-to-end composition) '
+                      '+ regenerated layout obligation + differential correspondence with the real responder and asker'},
+ 'C19': {'text': 'Lean theorems over an abstract open()/close() program language (fuel-based semantics, state = flag, open links, device log; fault '
+                 'plan = the k-th potentially-raising step raises kind κ): fault_beyond_end (∀ plan reduces to a finite table), all_plans_of_table, '
+                 'consistent_of_wf (decidable syntactic discipline ⇒ consistent under every plan), retry_possible, close_after_open, closed_no_io, '
+                 'double_open_close_refused. Per driver class (64 programs regenerated from the AST of open/close on every run): ok_X : ∀ plan, '
+                 'Consistent (51 classes) or the kernel-checked negation witness bad_X plus exact_X (the complete list of failing plans; 13 programs '
+                 '= 12 known findings), hist_X, recover_X, shape_X, all by decide +kernel. Tie: every class is instantiated around recording '
+                 'fault-injecting transports; every transport call of the real open() × {timeout, instrument error, OS error, junk reply} is swept, '
+                 'executed statements (line trace), exception, is_open() and link flags are diffed against the model run under the corresponding '
+                 'plan; plus seeded open/close histories (with faulty opens) and every RPC method on the closed instrument.',
+         'note': 'Trusted: Lean kernel (axioms used: propext, Quot.sound); translator harness/tr_openprogs.py (conservative: whitelist of pure '
+                 'statements, refuses source it does not understand) and the fake transport; `io` statements are one opaque potentially-raising step '
+                 '(assumed not to touch flag/links — validated by the per-run correspondence); concrete transports, faults inside close(), multiple '
+                 'faults and BaseException are out of scope; consistent_of_wf/close_after_open are stated for single-link drivers.',
+         'technique': 'Lean 4 proof (generic lemmas + per-class decide +kernel on programs translated from source) + line-trace fault-sweep '
+                      'correspondence with the real drivers'}}
